@@ -143,6 +143,34 @@ func libFormatFloat(x *Exec, n *ast.CallExpr, recv *Val, recvExpr ast.Expr, st *
 }
 
 func libJoin(x *Exec, n *ast.CallExpr, recv *Val, recvExpr ast.Expr, st *State, env *Env) Val {
+	// strings.Join([]string{a, b, c}, sep) with a literal element list: the concatenation a + sep + b + sep + c itself
+	if cl, ok := n.Args[0].(*ast.CompositeLit); ok && len(cl.Elts) >= 1 && len(cl.Elts) <= 8 {
+		plain := true
+		for _, e := range cl.Elts {
+			if _, kv := e.(*ast.KeyValueExpr); kv {
+				plain = false
+			}
+		}
+		if plain {
+			sep := x.eval(n.Args[1], st, env)
+			if sep.Ty == nil {
+				sep = x.materialize(sep, tString)
+			}
+			t := ""
+			for i, e := range cl.Elts {
+				v := x.eval(e, st, env)
+				if v.Ty == nil {
+					v = x.materialize(v, tString)
+				}
+				if i == 0 {
+					t = v.T
+				} else {
+					t = app("gs.cat", app("gs.cat", t, sep.T), v.T)
+				}
+			}
+			return Val{T: t, Ty: tString}
+		}
+	}
 	s := x.eval(n.Args[0], st, env)
 	sep := x.eval(n.Args[1], st, env)
 	x.c.declare("gs.join", "(declare-fun gs.join ((Array Int Str) Int Int Str) Str)")
